@@ -3,6 +3,7 @@ import Mingus.Model.Keys
 import Mingus.Model.Intervals
 import Mingus.Model.Scales
 import Mingus.Model.Chords
+import Mingus.Model.Progressions
 /- Line-protocol dispatch: function name + decoded arguments → observation. -/
 namespace Mingus
 open Val
@@ -109,7 +110,40 @@ def dispatchChords : String → List Val → Option Val
   | "chords.function", [str name, str k] => some (toVal (Chords.chordFunction name k))
   | _, _ => none
 
+def substByName (name : Str) (p : Str) (ignore : Bool) : Option (Except Err (List Str)) :=
+  match String.ofList name with
+  | "substitute_harmonic" => some (Progressions.substituteHarmonic p ignore)
+  | "substitute_minor_for_major" => some (Progressions.substituteMinorForMajor p ignore)
+  | "substitute_major_for_minor" => some (Progressions.substituteMajorForMinor p ignore)
+  | "substitute_diminished_for_diminished" => some (Progressions.substituteDimForDim p ignore)
+  | "substitute_diminished_for_dominant" => some (Progressions.substituteDimForDom p ignore)
+  | _ => Option.none
+
+def dispatchProg : String → List Val → Option Val
+  | "prog.parse_string", [str x] =>
+      let r := Progressions.parseString x
+      some (.list [toVal r.1, toVal r.2.1, toVal r.2.2])
+  | "prog.tuple_to_string", [str r, int a, str sf] => some (toVal (Progressions.tupleToString r a sf))
+  | "prog.to_chords", [list p, str k] => some (toVal (Progressions.toChords (strList p) k))
+  | "prog.determine", [list c, str k, Val.bool sh] => some (toVal (Progressions.determine (strList c) k sh))
+  | "prog.subst", [str name, list p, int i, Val.bool ig] =>
+      match (strList p)[i.toNat]? with
+      | Option.none => some (.err .index)
+      | some x => (substByName name x ig).map fun r => match r with
+        | .ok res => .list [toVal res, .list p]
+        | .error e => .err e
+  | "prog.substitute", [list p, int i, int d] =>
+      match (strList p)[i.toNat]? with
+      | Option.none => some (.err .index)
+      | some x => some (match Progressions.substitute d.toNat x with
+        | .ok res => .list [toVal res, .list p]
+        | .error e => .err e)
+  | "prog.skip", [str r, int n] => some (toVal (Progressions.skip r n.toNat))
+  | "prog.interval_diff", [str a, str b, int iv] => some (toVal (Progressions.intervalDiff a b iv))
+  | _, _ => none
+
 def dispatch (fn : String) (args : List Val) : Option Val :=
+  (dispatchProg fn args).orElse fun _ =>
   (dispatchChords fn args).orElse fun _ =>
   (dispatchScales fn args).orElse fun _ =>
   (dispatchNotes fn args).orElse fun _ =>
